@@ -128,6 +128,11 @@ func (nd *ndArrayTypeC) Reshape(newShape []int) (data.NDArrayType, error) {
 
 	reshapeToSeries := (len(newShape) == 1) && (data.Maximum(nd.Shape()) == len(newShape))
 
+	if !nd.Contiguous() && !reshapeToSeries {
+		// The elements are not adjacent in the C buffer: gather them, as the Go-backed arrays do
+		return data.ArrayFromSliceArrayType(nd.Unroll(), newShape), nil
+	}
+
 	if nd.Contiguous() || !reshapeToSeries {
 		result.Start = nd.Start
 		result.Impl = nd.Impl
